@@ -20,6 +20,11 @@ Import ListNotations.
 Open Scope Z_scope.
 
 
+Theorem C04_sev_adequate :
+  forall f e d en,
+  subq_free e = true -> (edepth e < f)%nat -> eval_expr f d en e = sev en e.
+Proof. exact sev_adequate. Qed.
+
 Theorem C04_rw_eval_expr :
   forall en l r, rw en l r ->
   forall f d v, subq_free l = true -> subq_free r = true -> (edepth l < f)%nat -> (edepth r < f)%nat ->
@@ -587,6 +592,17 @@ Theorem C04_nullable_sound :
   forall sch r en e,
   conforms sch r -> nullable sch e = false -> nonnull_at (r :: en) e.
 Proof. exact nullable_sound. Qed.
+
+Theorem C04_equiv_regions_sound :
+  forall e e' cs, equiv_regions e e' cs = true ->
+  forall v, v = VNull \/ (exists z, v = VInt z) -> sev [[v]] e = sev [[v]] e'.
+Proof. exact equiv_regions_sound. Qed.
+
+Theorem C04_equiv_regions_example :
+  equiv_regions (EAnd (ECmp CGe (ECol 0 0) (ELit (VInt 5))) (ECmp CLe (ECol 0 0) (ELit (VInt 5))))
+                (ECmp CEq (ECol 0 0) (ELit (VInt 5))) [5] = true /\
+  equiv_regions (ENot (ECmp CLt (ECol 0 0) (ELit (VInt 3)))) (ECmp CGt (ECol 0 0) (ELit (VInt 3))) [3] = false.
+Proof. exact equiv_regions_example. Qed.
 
 
 (* the hypotheses are satisfiable on non-trivial instances, and the validator separates a wrong rewrite *)
